@@ -908,3 +908,122 @@ def r_callback_truthiness(ck: Checker, rule: str, funcs: list[tuple[str, str]], 
             ck.violation(rule, f, bad, what, positive=True, construct=f"{qual}: {norm(bad)[:50]} — a falsy result that is not the object False (None, 0, '') is no longer a rejection")
         else:
             ck.holds(rule, f, f.node, what)
+
+
+def r_class_keyed_memo(ck: Checker, rule: str, modnames: tuple[str, ...], why: str) -> None:
+    """A memo kept per class (a table whose key is made of `type(x)` / `x.__class__` components, or an attribute stored on `type(x)`)
+    answers for every instance of the class.  Positive pattern: the memoised computation consults the instance itself — a plain
+    attribute of `x` that is not part of the key (`visitor.strict`), or a method of `x` that reads the instance's field values by a
+    computed name (`getattr(self, field.name)`): the first instance that comes by decides for all later ones."""
+    n = 0
+    for modname in modnames:
+        m_ = ck.repo.mod(modname)
+        classvars = {st.target.id for c_ in ast.walk(m_.tree) if isinstance(c_, ast.ClassDef) for st in c_.body
+                     if isinstance(st, ast.AnnAssign) and isinstance(st.target, ast.Name) and "ClassVar" in norm(st.annotation)}
+        module_names = {t.id for st in m_.tree.body if isinstance(st, (ast.Assign, ast.AnnAssign))
+                        for t in (st.targets if isinstance(st, ast.Assign) else [st.target]) if isinstance(t, ast.Name)}
+        for q, fn, cls in _raw_functions(m_):
+            n += 1
+            once: dict[str, ast.expr] = {}
+            counts: dict[str, int] = {}
+            for st in ast.walk(fn):
+                if isinstance(st, ast.Assign) and len(st.targets) == 1 and isinstance(st.targets[0], ast.Name):
+                    counts[st.targets[0].id] = counts.get(st.targets[0].id, 0) + 1
+                    once[st.targets[0].id] = st.value
+            once = {k: v for k, v in once.items() if counts[k] == 1}
+
+            def resolve(e: ast.expr) -> ast.expr:
+                seen = 0
+                while isinstance(e, ast.Name) and e.id in once and seen < 4:
+                    e = once[e.id]
+                    seen += 1
+                return e
+
+            def class_of(e: ast.expr) -> str | None:
+                e = resolve(e)
+                if isinstance(e, ast.Attribute) and e.attr == "__class__" and isinstance(e.value, ast.Name):
+                    return e.value.id
+                if isinstance(e, ast.Call) and dotted(e.func) == "type" and len(e.args) == 1 and isinstance(e.args[0], ast.Name):
+                    return e.args[0].id
+                return None
+
+            # (store statement, objects whose class is the key, texts that are part of the key)
+            memos: list[tuple[ast.stmt, set[str], set[str]]] = []
+            for st in ast.walk(fn):
+                if not isinstance(st, ast.Assign) or len(st.targets) != 1:
+                    continue
+                tg = st.targets[0]
+                if isinstance(tg, ast.Subscript) and isinstance(tg.value, ast.Name) and tg.value.id in module_names:
+                    key = resolve(tg.slice)
+                    comps = list(key.elts) if isinstance(key, ast.Tuple) else [key]
+                    objs = {o for o in (class_of(c_) for c_ in comps) if o is not None}
+                    if objs:
+                        memos.append((st, objs, {norm(resolve(c_)) for c_ in comps}))
+                elif isinstance(tg, ast.Attribute) and class_of(tg.value) is not None and not tg.attr.startswith("__"):
+                    memos.append((st, {class_of(tg.value)}, set()))  # type: ignore[arg-type]
+            for st, objs, keyparts in memos:
+                # the statement of the function body that holds the store: the miss branch
+                top = next((b for b in fn.body if any(x is st for x in ast.walk(b))), st)
+                called = {id(x.func) for x in ast.walk(top) if isinstance(x, ast.Call)}
+                hit: tuple[ast.AST, str] | None = None
+                for x in ast.walk(top):
+                    if isinstance(x, ast.Attribute) and isinstance(x.ctx, ast.Load) and isinstance(x.value, ast.Name) and x.value.id in objs \
+                            and not x.attr.startswith("__") and id(x) not in called and x.attr not in classvars and norm(x) not in keyparts:
+                        hit = (x, f"reads {norm(x)}, which is not part of the key")
+                    elif isinstance(x, ast.Call) and isinstance(x.func, ast.Attribute) and isinstance(x.func.value, ast.Name) and x.func.value.id in objs and cls is not None:
+                        meth = next((b for b in cls.body if isinstance(b, ast.FunctionDef) and b.name == x.func.attr and b.args.args), None)
+                        if meth is not None:
+                            recv = meth.args.args[0].arg
+                            for y in ast.walk(meth):
+                                if isinstance(y, ast.Call) and dotted(y.func) == "getattr" and len(y.args) >= 2 and norm(y.args[0]) == recv and not isinstance(y.args[1], ast.Constant):
+                                    hit = (x, f"calls {norm(x.func)}, which reads the instance's own field values ({norm(y)[:40]})")
+                what = f"{q}: what is remembered per class is computed from the class alone ({why})"
+                if hit is not None:
+                    ck.violation(rule, (m_.rel, q), hit[0], what, positive=True,
+                                 construct=f"{q}: the memo stored by `{norm(st)[:60]}` is kept per class of {sorted(objs)} but its computation {hit[1]} — the first instance decides for every later instance of the class")
+                else:
+                    ck.holds(rule, (m_.rel, q), st, what)
+    if n == 0:
+        ck.incomplete(rule, None, None, f"no function found in {modnames}")
+    else:
+        ck.holds(rule, ("src/pyoak", ", ".join(modnames)), None, "no per-class memo is computed from one instance", functions=n)
+
+
+def r_index_presence(ck: Checker, rule: str, funcs: list[tuple[str, str]], sources: tuple[str, ...], why: str) -> None:
+    """Positions and registry indexes start at 0: whether one is present is asked with `is None`, never by its truth value.  Positive
+    pattern: an expression whose text matches one of `sources` (or a name bound to one) used as a truth value (`x or ...`, `if x`,
+    `not x`, `x and ...`)."""
+    import re
+    pats = [re.compile(s) for s in sources]
+
+    def is_src(e: ast.expr) -> bool:
+        t = norm(e)
+        return any(p.fullmatch(t) for p in pats)
+
+    for modname, qual in funcs:
+        f = ck.repo.func(modname, qual)
+        bad = None
+        for fn in [x for x in (f.raw, f.node) if x is not None]:
+            names = {st.targets[0].id for st in ast.walk(fn) if isinstance(st, ast.Assign) and len(st.targets) == 1 and isinstance(st.targets[0], ast.Name) and is_src(st.value)}
+            names |= {x.target.id for x in ast.walk(fn) if isinstance(x, ast.NamedExpr) and is_src(x.value)}
+
+            def idx(e: ast.expr) -> bool:
+                return is_src(e) or (isinstance(e, ast.Name) and e.id in names) or (isinstance(e, ast.NamedExpr) and is_src(e.value))
+            for x in ast.walk(fn):
+                tests: list[ast.expr] = []
+                if isinstance(x, (ast.If, ast.While, ast.IfExp, ast.Assert)):
+                    tests.append(x.test)
+                elif isinstance(x, ast.BoolOp):
+                    tests.extend(x.values[:-1] if isinstance(x.op, ast.Or) else x.values)
+                elif isinstance(x, ast.UnaryOp) and isinstance(x.op, ast.Not):
+                    tests.append(x.operand)
+                elif isinstance(x, ast.comprehension):
+                    tests.extend(x.ifs)
+                for t_ in tests:
+                    if idx(t_):
+                        bad = t_
+        what = f"{qual}: whether an index is present is asked with `is None` ({why})"
+        if bad is not None:
+            ck.violation(rule, f, bad, what, positive=True, construct=f"{qual}: `{norm(bad)[:50]}` is used by its truth value — index 0 counts as absent")
+        else:
+            ck.holds(rule, f, f.node, what)
